@@ -240,3 +240,7 @@ def run(eng: Engine, ck: Check):
     for y in apps:
         hn = [n for n in c.nodes if n.kind == 'handler' and 'KeyError' in handler_type_names(n.ast)]
         ck.ob('R-C18-LOOKUP', pr, y, 'results are stored only on the found request', not any(c.nodes_for(y)[0] in c.reach_from([h]) for h in hn), '', construct='store only for known')
+    from . import defs as _defs_emit
+    _defs_emit.event_bus_emit_contains(eng, ck, 'R-C18-TIMER', 'the timeout callback and the reply handler await emit() between bookkeeping steps')
+    from . import defs as _d18
+    _d18.presence_truthiness(eng, ck, 'R-C18-TIMER', [('Timer', 'tasks.py'), ('SearchRequest', 'search/model.py')], 'the wishlist job starts a timer under `if request.timer:`, removal cancels it under the same test')
